@@ -4,7 +4,7 @@ SPEC = dict(
     level="proof",
     harness=dict(pkg_dir="cmd/zoekt-sourcegraph-indexserver", run="TestVerifC32$",
                  files=["cmd/zoekt-sourcegraph-indexserver/zz_verif_c32_test.go"],
-                 n_quick=70, n_thorough=2500),
+                 n_quick=70, n_thorough=1500),
     runner=dict(imports=["From ZV Require Import Lib.Base Model.Cleanup."], case_type="c32case",
                 mismatch_fn="c32_mismatches", shard=200),
     rule="generated index directories of real shards over 2-6 repository ids: simple shards (1-2 per repository, 15% a second "
